@@ -146,6 +146,11 @@ class Expander:
         seen = seen | {key}
         dn = rd.node_by_id[defs[0]]
         a = dn.ast
+        if dn.kind == "stmt" and not self._stable(rd, dn, node, a, e.id):
+            # the defining expression reads a variable that has been reassigned or
+            # mutated between the definition and this use: substituting it here
+            # would denote another value
+            return clone_ast(e)
         if dn.kind == "for":
             return self._loopvar(e.id, a, fi, bindings, depth, seen)
         if dn.kind != "stmt":
@@ -166,6 +171,47 @@ class Expander:
             prev = self._x(ast.Name(id=e.id, ctx=ast.Load()), fi, a, bindings, depth + 1, seen)
             return ast.BinOp(left=prev, op=clone_ast(a.op), right=self._x(a.value, fi, a, bindings, depth + 1, seen))
         return clone_ast(e)
+
+    def _stable(self, rd, dn, use, a, name) -> bool:
+        """may the defining expression of `name` (statement `a`) be substituted
+        at `use`?  Every variable it reads must denote the same value there:
+        same reaching definitions, except attribute stores `v.attr = ...` on an
+        object of which the expression only reads other attributes."""
+        val = getattr(a, "value", None)
+        if val is None:
+            return True
+        reads = {}
+        for n in ast.walk(val):
+            if isinstance(n, ast.Name) and isinstance(n.ctx, ast.Load) and n.id != name:
+                p = getattr(n, "_parent", None)
+                attr = p.attr if isinstance(p, ast.Attribute) and p.value is n else None
+                reads.setdefault(n.id, set()).add(attr)
+        for v, attrs in reads.items():
+            d1, d2 = set(rd.reaching(v, dn)), set(rd.reaching(v, use))
+            if d1 == d2:
+                continue
+            if None in attrs:
+                return False
+            for d in d1 ^ d2:
+                node = rd.node_by_id.get(d)
+                st = node.ast if node is not None else None
+                if not isinstance(st, (ast.Assign, ast.AugAssign, ast.AnnAssign)) or node.kind != "stmt":
+                    return False
+                tgts = st.targets if isinstance(st, ast.Assign) else [st.target]
+                flat = []
+                for t in tgts:
+                    flat += list(t.elts) if isinstance(t, (ast.Tuple, ast.List)) else [t]
+                for t in flat:
+                    for x in ast.walk(t):
+                        if isinstance(x, ast.Name) and x.id == v:
+                            if not (isinstance(t, ast.Attribute) and t.value is x and t.attr not in attrs):
+                                return False
+                # a call in the statement may still mutate v: reaching-defs lists it as a
+                # mutation only when v is passed/receiver, which the loop above rejects
+                val2 = getattr(st, "value", None)
+                if val2 is not None and any(isinstance(x, ast.Name) and x.id == v and not (isinstance(getattr(x, "_parent", None), ast.Attribute)) for x in ast.walk(val2)):
+                    return False
+        return True
 
     def _tuple_elem(self, value, pos, n, fi, at, bindings, depth, seen):
         if isinstance(value, (ast.Tuple, ast.List)) and len(value.elts) == n:
